@@ -427,6 +427,8 @@ fn c01_scen(t: Tier) -> Vec<(&'static str, u64)> {
 }
 fn c01_gen(sc: &str, rng: &mut Rng, t: Tier, _i: u64) -> AnyCase {
     let mut k = knobs_functional(t);
+    // "accepted sequence of writes": rejected calls in between must not disturb what the tables say
+    k.invalid_pct = 3;
     if sc == "benign-faults" {
         k.fault_mode = 1;
         k.fault_pct = 100;
@@ -1090,9 +1092,17 @@ const STUB_FAULT: &[&str] = &["sink (SimSink: one enumerated fault point per exe
 // ================================================================ C16
 
 fn c16_scen(t: Tier) -> Vec<(&'static str, u64)> {
-    vec![("boundary-progressive", t.pick(200_000, 4_000_000)), ("boundary-fragmented", t.pick(200_000, 4_000_000))]
+    let mut v = vec![("boundary-progressive", t.pick(200_000, 4_000_000)), ("boundary-fragmented", t.pick(200_000, 4_000_000))];
+    if t == Tier::Thorough {
+        // 16 recordings of about 4 GiB each, executed one at a time by worker 0
+        v.push(("slow-four-gib", 16));
+    }
+    v
 }
-fn c16_gen(sc: &str, rng: &mut Rng, _t: Tier, _i: u64) -> AnyCase {
+fn c16_gen(sc: &str, rng: &mut Rng, _t: Tier, i: u64) -> AnyCase {
+    if sc == "slow-four-gib" {
+        return AnyCase::Prog(crate::big::gen(rng, i));
+    }
     if sc == "boundary-fragmented" {
         AnyCase::Frag(gen::gen_frag(rng, &FragKnobs { reject_pct: 3, boundary: true, big: false, long_pct: 1 }))
     } else {
@@ -1102,6 +1112,9 @@ fn c16_gen(sc: &str, rng: &mut Rng, _t: Tier, _i: u64) -> AnyCase {
 fn c16_eval(sc: &str, case: &AnyCase, st: &mut RunStats, _t: Tier) -> Vec<Violation> {
     if sc == "boundary-fragmented" {
         return crate::frag::c16_eval_frag(as_frag(case), st);
+    }
+    if sc == "slow-four-gib" {
+        return crate::big::eval(as_prog(case), st);
     }
     let case = as_prog(case);
     let (ex, lm) = run_and_model(case, st);
@@ -1166,7 +1179,7 @@ const FK_CONC: &[&str] = &["clock_jump", "resume_inside_sink_write", "thread_mig
 // ================================================================ C20
 
 fn c20_scen(t: Tier) -> Vec<(&'static str, u64)> {
-    vec![("mux-valid", t.pick(5_000, 80_000)), ("mux-invalid", t.pick(7_000, 120_000)), ("validate", t.pick(3_000, 40_000)), ("info", t.pick(3_000, 40_000))]
+    vec![("mux-valid", t.pick(5_000, 80_000)), ("mux-invalid", t.pick(7_000, 120_000)), ("mux-faulted", t.pick(3_000, 60_000)), ("validate", t.pick(3_000, 40_000)), ("info", t.pick(3_000, 40_000))]
 }
 fn c20_gen(sc: &str, rng: &mut Rng, _t: Tier, _i: u64) -> AnyCase {
     AnyCase::Cli(crate::cli::gen(rng, sc))
@@ -1187,9 +1200,10 @@ const STUB_CLI: &[&str] = &[
     "file-system state of a per-run scratch directory (inputs: valid hex in four spellings, odd length, non-hex, empty, whitespace only, non-UTF-8, directory, missing, dangling symlink, symlink loop; output: fresh, existing, directory, missing parent, /dev/full)",
     "argv (codec names and aliases in any case, dimensions, fps, audio codec/rate/channels, title, language, --json, --verbose, --no-progress, --dry-run, --fragmented)",
     "process environment (cleared; LANG=C)",
+    "libc read(2)/write(2) of the child through an LD_PRELOAD shim (sim/shim.c): EIO, ENOSPC, EINTR and short transfers at a seeded call index",
 ];
 const REAL_CLI: &[&str] = &["the muxide binary built from /repo (src/bin/muxide.rs + library) with overflow-checks and debug-assertions, run as a child process", "kernel file-system objects (/dev/full -> ENOSPC, directory -> EISDIR, missing parent -> ENOENT, symlink loop -> ELOOP)", "the muxide library in-process as the reference"];
-const FK_CLI: &[&str] = &["output_dev_full(ENOSPC)", "output_is_directory(EISDIR)", "output_parent_missing(ENOENT)", "input_missing(ENOENT)", "input_is_directory(EISDIR)", "input_dangling_symlink(ENOENT)", "input_symlink_loop(ELOOP)", "input_non_utf8(InvalidData)", "info_truncated_file", "info_flipped_stored_byte", "info_random_contents"];
+const FK_CLI: &[&str] = &["shim_eio_on_write", "shim_enospc_on_write", "shim_eintr_on_write", "shim_short_write", "shim_eio_on_read", "shim_eintr_on_read", "shim_short_read", "output_dev_full(ENOSPC)", "output_is_directory(EISDIR)", "output_parent_missing(ENOENT)", "input_missing(ENOENT)", "input_is_directory(EISDIR)", "input_dangling_symlink(ENOENT)", "input_symlink_loop(ELOOP)", "input_non_utf8(InvalidData)", "info_truncated_file", "info_flipped_stored_byte", "info_random_contents"];
 
 // ================================================================ registry
 
